@@ -907,3 +907,78 @@ Definition stable_unit (u : unit_) : bool :=
   forallb (stable_func plain0) (u_funcs u).
 
 End Fixed.
+
+(* ------------------------------------------------------------------------------------------------ *)
+(* structural equality of declarations (pytd's ==, with the set equality of unions inside the types) and the view in
+   which "builtins.X" and "X" are one name *)
+
+Definition const_eq (a b : const) : bool :=
+  (k_name a =? k_name b)%N && ty_eq (k_ty a) (k_ty b) && Bool.eqb (k_val a) (k_val b).
+Definition alias_eq (a b : N * ty) : bool := (fst a =? fst b)%N && ty_eq (snd a) (snd b).
+Definition tparam_eq (a b : tparam) : bool :=
+  (tp_name a =? tp_name b)%N && (tp_lit a =? tp_lit b)%N && list_eqb ty_eq (tp_cons a) (tp_cons b) &&
+  opt_eq ty_eq (tp_bound a) (tp_bound b).
+Definition fsig_eq (a b : fsig) : bool := sig_eq (f_sig a) (f_sig b) && list_eqb ty_eq (f_exc a) (f_exc b).
+Definition func_eq (a b : func) : bool :=
+  (fn_name a =? fn_name b)%N && list_eqb fsig_eq (fn_sigs a) (fn_sigs b) && mkind_eqb (fn_kind a) (fn_kind b) &&
+  Bool.eqb (fn_abs a) (fn_abs b) && Bool.eqb (fn_cor a) (fn_cor b) && Bool.eqb (fn_fin a) (fn_fin b) &&
+  list_eqb N.eqb (fn_decos a) (fn_decos b).
+Fixpoint cls_eq (a b : cls) : bool :=
+  match a, b with
+  | mkCls n1 b1 k1 d1 s1 c1 ks1 m1, mkCls n2 b2 k2 d2 s2 c2 ks2 m2 =>
+      (n1 =? n2)%N && list_eqb ty_eq b1 b2 && list_eqb alias_eq k1 k2 && list_eqb N.eqb d1 d2 &&
+      opt_eq (list_eqb N.eqb) s1 s2 && list_eqb cls_eq c1 c2 && list_eqb const_eq ks1 ks2 && list_eqb func_eq m1 m2
+  end.
+Definition unit_eq (a b : unit_) : bool :=
+  list_eqb tparam_eq (u_tparams a) (u_tparams b) && list_eqb alias_eq (u_aliases a) (u_aliases b) &&
+  list_eqb const_eq (u_consts a) (u_consts b) && list_eqb cls_eq (u_classes a) (u_classes b) &&
+  list_eqb func_eq (u_funcs a) (u_funcs b).
+
+Definition unqual_const (k : const) : const := mkK (k_name k) (unqual (k_ty k)) (k_val k).
+Definition unqual_alias (a : N * ty) : N * ty := (fst a, unqual (snd a)).
+Definition unqual_tparam (t : tparam) : tparam :=
+  mkTP (tp_name t) (tp_lit t) (map unqual (tp_cons t)) (match tp_bound t with Some b => Some (unqual b) | None => None end).
+Definition unqual_fsig (f : fsig) : fsig := mkF (unqual_sig (f_sig f)) (map unqual (f_exc f)).
+Definition unqual_func (f : func) : func :=
+  mkFn (fn_name f) (map unqual_fsig (fn_sigs f)) (fn_kind f) (fn_abs f) (fn_cor f) (fn_fin f) (fn_decos f).
+Fixpoint unqual_cls (cl : cls) : cls :=
+  match cl with
+  | mkCls n b k d s cs ks ms =>
+      mkCls n (map unqual b) (map unqual_alias k) d s (map unqual_cls cs) (map unqual_const ks) (map unqual_func ms)
+  end.
+Definition unqual_unit (u : unit_) : unit_ :=
+  mkU (map unqual_tparam (u_tparams u)) (map unqual_alias (u_aliases u)) (map unqual_const (u_consts u))
+      (map unqual_cls (u_classes u)) (map unqual_func (u_funcs u)).
+
+(* conditions for the re-read declarations to be structurally equal to the printed ones, on top of stable_*:
+   every type eq_stable; signatures eq_stable_sig (no elided typed self/cls, no `nothing` return); no property
+   methods; decorators without repetitions; TypeVars already in the printer's order; a class lists its bases (the
+   reader adds `object` to an empty list) *)
+Definition eq_stable_fsig (c : ctx) (f : fsig) : bool :=
+  eq_stable_sig c (f_sig f) &&
+  forallb (fun p => match p_mut p with Some m => eq_stable (ctx_plain c) m | None => true end) (s_params (f_sig f)) &&
+  forallb (eq_stable (ctx_plain c)) (f_exc f).
+Definition eq_stable_func (c : ctx) (f : func) : bool :=
+  forallb (eq_stable_fsig c) (fn_sigs f) && negb (mkind_eqb (fn_kind f) KProp).
+Definition eq_stable_tparam (t : tparam) : bool :=
+  forallb (eq_stable plain0) (tp_cons t) && match tp_bound t with Some b => eq_stable plain0 b | None => true end.
+Fixpoint sorted_tps (l : list tparam) : bool :=
+  match l with
+  | x :: ((y :: _) as r) => (tp_name x <=? tp_name y)%N && sorted_tps r
+  | _ => true
+  end.
+Fixpoint eq_stable_cls (cl : cls) : bool :=
+  match cl with
+  | mkCls nm bases kws decos slots classes consts methods =>
+      let c := mkCtx false (Some nm) in
+      forallb (eq_stable (ctx_plain c)) bases &&
+      negb (is_nil bases) && negb (nm =? id_object)%N &&
+      nodup_by N.eqb decos &&
+      forallb (fun k => eq_stable (ctx_plain c) (k_ty k)) consts &&
+      forallb (eq_stable_func c) methods && forallb eq_stable_cls classes
+  end.
+Definition eq_stable_unit (u : unit_) : bool :=
+  sorted_tps (u_tparams u) && forallb eq_stable_tparam (u_tparams u) &&
+  forallb (fun a => eq_stable plain0 (snd a)) (u_aliases u) &&
+  forallb (fun k => eq_stable plain0 (k_ty k)) (u_consts u) &&
+  forallb eq_stable_cls (u_classes u) && forallb (eq_stable_func plain0) (u_funcs u).
